@@ -184,6 +184,9 @@ def crosshair_positions(pos, rng):
     out = [("inside", [float(rng.uniform(0.1, 0.9)), float(rng.uniform(0.1, 0.9))]),
            ("on-vertex", [float(pos[v][0]), float(pos[v][1])]),
            ("on-x-of-v-y-of-w", [float(pos[v][0]), float(pos[w][1])]),
+           # a hair above a vertex: that vertex is STRICTLY below the crosshair and must count (one ulp, and a few 1e-6)
+           ("one-ulp-above-vertex", [float(np.nextafter(float(pos[v][0]), np.inf)), float(np.nextafter(float(pos[v][1]), np.inf))]),
+           ("hair-above-vertex", [float(pos[w][0]) * (1 + 2e-6) + 1e-7, float(pos[v][1]) * (1 + 3e-6) + 1e-7]),
            ("on-x-only", [float(pos[w][0]), float(rng.uniform(0.1, 0.9))]),
            ("outside", [float(rng.choice([-0.37, 1.6, 2.0])), float(rng.uniform(0.1, 0.9))]),
            ("outside-all-below", [3.0, 5.0])]
@@ -484,7 +487,7 @@ def eval_numeric(ctx, cases, label):
         Pp = P[np.ix_(order, order)]
         Pg = d[:, None] * P * d[None, :]
         lats = Lattice(pos[:, ::-1].copy(), lat.edges.indices.copy(), lat.edges.crossing[:, ::-1].copy())
-        calls = [("chern", None)] + [("crosshair:" + n, ch) for n, ch in crosshair_positions(pos, rng)[:4]]
+        calls = [("chern", None)] + [("crosshair:" + n, ch) for n, ch in crosshair_positions(pos, rng)[:5]]
         nontriv = False
         for what, ch in calls:
             case = dict(c, what=what, crosshair=ch)
@@ -550,7 +553,7 @@ def evaluate(ctx, cases, label):
 
 def run(ctx):
     ctx.res.rule = ("exact: Gaussian-rational projectors A(A*A)^-1A* of every rank 0..V on dyadic ring lattices V=2..12, honeycomb(1,2), two_triangles and "
-                    "2..6-seed Voronoi lattices, Chern marker + crosshair at 6 positions (inside, on a vertex, on x of one vertex and y of another, outside, all-below); "
+                    "2..6-seed Voronoi lattices, Chern marker + crosshair at 8 positions (inside, on a vertex, on x of one vertex and y of another, one ulp and a few 1e-6 above a vertex, outside, all-below); "
                     "numeric: random complex projectors (V=2..60, every rank) and spectral projectors of Majorana Hamiltonians (Voronoi, honeycomb; random u, J; half / random filling); "
                     "non-trivial = some marker value is non-zero (exact) / exceeds 1e-6 (numeric)")
     evaluate(ctx, k_cases(ctx.tier, ctx.seed) + numeric_cases(ctx.tier, ctx.seed), "K(marker)")
